@@ -292,6 +292,13 @@ struct DWorld : World {
 					// one, two or three fragments cut anywhere (also right behind the separators, also with an empty fragment in between)
 					uint64_t z = ((uint64_t) op.c + 1) * 0x9e3779b97f4a7c15ull ^ ((uint64_t) op.b * 0xff51afd7ed558ccdull);
 					size_t lead = (size_t) (z >> 8) % 4;
+					// sometimes the command word is quoted and holds a separator: the quotes keep it one word, wherever the fragments are cut
+					static const char quoted[] = "\"do it\"";
+					if ((z >> 44) & 1) {
+						nm = quoted; hid = mpt_hash(quoted, (int) strlen(quoted));
+						if (!live.count(hid)) { Rec *qr = new_rec(hid, 0, false); int qrc; { Sut s; qrc = mpt_dispatch_set(D, hid, handler, qr); } if (qrc >= 0) { qr->registered = true; live[hid] = qr; } }
+						st.hit("probe:hash_of_quoted_word");
+					}
 					std::string t; t.push_back(0x04); t.push_back(' '); t.append(lead, ' '); t += nm; t += " arg";
 					Block tb(t.size(), 0); memcpy(tb.p, t.data(), t.size());
 					size_t c1 = (size_t) (z >> 16) % (t.size() + 1), c2 = c1 + (size_t) (z >> 32) % (t.size() - c1 + 1);
